@@ -23,7 +23,8 @@ STUBS = _hist.STUBS + ["multiprocessing.Process.start/join (sub-writers are task
 RULE = ("per-run seed -> one document-level operation list + one configuration from storage {simulated FileStorage with mmap, "
         "without mmap, RamStorage; final copy_to_ram} x packing {compound, loose} x front-end {plain, MpWriter(procs 2-4, "
         "batchsize 1-7, merged or multisegment), SerialMpWriter, BufferedWriter(period, limit) driven by 1-3 caller threads, "
-        "AsyncWriter(delay) with or without a plain writer holding the lock}. The seeded scheduler decides sub-process start "
+        "AsyncWriter(delay) with or without a plain writer holding the lock, callers pausing between calls}; some documents carry stored "
+        "values only; sort-pool merge width k in {2,3,5,64}. The seeded scheduler (uniform / sticky / PCT; GC at seeded step events) decides sub-process start "
         "order, which sub-writer dequeues which job file, queue visibility delays, async poll timing and when the buffered "
         "writer's timer fires relative to caller steps. The final (and per-commit) logical dump must equal the reference model "
         "(the same for every configuration). Non-trivial = >=1 commit and >=1 read-back; distinct = distinct event-log SHA-256.")
